@@ -148,3 +148,63 @@ def drive_c03(sess, rnd, cfg, record):
             op["kw"]["itol"] = 10.0 ** R.randint(-9, -2)
             op["kw"]["maxiter"] = R.wpick([(0, 1), (1, 1), (2, 1), (3, 1), (5, 1), (10, 1), (100, 2), (1000, 2), (10000, 1)])
         yield _emit(record, op)
+
+
+@register_special("C04")
+def drive_c04(sess, rnd, cfg, record):
+    """Reach a tree, then inject a kill fault at every position x kill kind."""
+    if rnd.random() < 0.35:
+        yield from drive(sess, rnd, cfg, record)
+        return
+    cfg["max_comps"] = min(cfg["max_comps"], 10)
+    cfg["max_depth"] = max(cfg["max_depth"], 3)
+    yield from _prefix(sess, rnd, cfg, record, n_ops=cfg["n_ops"] // 4)
+    g = sess.gen
+    R = g.r
+    yield _emit(record, {"op": "kill_sweep"})
+    for _ in range(R.randint(0, 2)):
+        e = R.wpick([(g.op_change, 2), (g.op_del, 1), (g.op_add_comp, 2), (g.op_comp_phases, 1)])(sess.model)
+        if e:
+            yield _emit(record, e)
+    if R.chance(0.4):
+        yield _emit(record, {"op": "kill_sweep"})
+    op = make_observe(g, sess.model, cfg)
+    op["final"] = True
+    yield _emit(record, op)
+
+
+@register_special("C05")
+def drive_c05(sess, rnd, cfg, record):
+    """Grow a mux early, then visit all 2^n live/dead patterns of its inputs."""
+    if rnd.random() < 0.3:
+        yield from drive(sess, rnd, cfg, record)
+        return
+    cfg["mux"] = 1.0
+    cfg["max_comps"] = min(max(cfg["max_comps"], 5), 10)
+    if "PMux" not in cfg["kinds"]:
+        cfg["kinds"].append("PMux")
+    yield from _prefix(sess, rnd, cfg, record, n_ops=2)
+    g = sess.gen
+    R = g.r
+    if sess.model.mux() is None:
+        e = g.op_add_mux(sess.model)
+        if e:
+            yield _emit(record, e)
+    m = sess.model
+    if m.mux() is not None:
+        for _ in range(R.randint(1, 3)):
+            e = g.op_add_comp(sess.model, parent=sess.model.mux()) if R.chance(0.7) else g.op_add_comp(sess.model)
+            if e:
+                yield _emit(record, e)
+        yield _emit(record, {"op": "mux_patterns"})
+        if R.chance(0.4):
+            # rename / replace an input or the mux, then visit the patterns again
+            tgt = R.pick(sess.model.parents[sess.model.mux()] + [sess.model.mux()])
+            e = g.op_change(sess.model)
+            if e:
+                yield _emit(record, e)
+            if sess.model.mux() is not None:
+                yield _emit(record, {"op": "mux_patterns"})
+    op = make_observe(g, sess.model, cfg)
+    op["final"] = True
+    yield _emit(record, op)
